@@ -356,6 +356,29 @@ func (h *hEnv) execStep(step bson.D) (res bson.D, perr error) {
 			if !got && h.argViolation == "" {
 				h.argViolation = fmt.Sprintf("a change stream opened with StartAtOperationTime(&ts) delivers nothing after the caller overwrote ts and the options (stream error: %v); the call kept the caller's pointer", st.Err())
 			}
+			// resume tokens handed out are the caller's: keeping one across
+			// further calls, or overwriting one, affects nothing else
+			if got {
+				tok1 := st.ResumeToken()
+				keep1 := append([]byte{}, tok1...)
+				_, ierr2 := h.coll(ns).InsertOne(ctx, bson.D{{Key: "_id", Value: id + "-b"}})
+				if ierr2 == nil && st.TryNext(ctx) {
+					tok2 := st.ResumeToken()
+					keep2 := append([]byte{}, tok2...)
+					if string(tok1) != string(keep1) && h.argViolation == "" {
+						h.argViolation = "a resume token handed out earlier changed when the stream advanced and ResumeToken was called again"
+					}
+					for i := range tok2 {
+						tok2[i] = 0
+					}
+					if tok3 := st.ResumeToken(); string(tok3) != string(keep2) && h.argViolation == "" {
+						h.argViolation = "overwriting a resume token handed out by the stream changed the token the stream returns afterwards"
+					}
+					if string(tok1) != string(keep1) && h.argViolation == "" {
+						h.argViolation = "overwriting one resume token changed another one handed out earlier"
+					}
+				}
+			}
 		}
 		_ = st.Close(ctx)
 		return finish(bson.D{{Key: "err", Value: errClass(ierr)}, {Key: "id", Value: id}})
